@@ -29,6 +29,8 @@ func init() {
 		ruleShrinkReserve(c, "C01.R13")
 		ruleShortWrite(c, "C01.R14")
 		ruleK5(c, "C01.R15")
+		ruleOkResults(c, "C01.R16")
+		ruleNullSource(c, "C01.R17")
 	}
 }
 
